@@ -100,6 +100,23 @@ impl Machine {
     /// Apply a symbol; None if the extended program violates the quantifier's side conditions.
     pub fn step(&self, s: Sym) -> Option<Machine> {
         let mut m = self.clone();
+        if m.step_mut(s) {
+            Some(m)
+        } else {
+            None
+        }
+    }
+
+    /// In-place version (the machine is left in an unspecified state when it returns false).
+    pub fn step_mut(&mut self, s: Sym) -> bool {
+        match self.step_inner(s) {
+            Some(()) => true,
+            None => false,
+        }
+    }
+
+    fn step_inner(&mut self, s: Sym) -> Option<()> {
+        let m = self;
         let pos = m.seq.len();
         m.seq.push(s);
         match s {
@@ -164,7 +181,7 @@ impl Machine {
                 }
             },
         }
-        Some(m)
+        Some(())
     }
 
     fn ud_for(pos: usize, s: Sym) -> UserDataM {
@@ -422,6 +439,48 @@ pub fn run(ctx: &Ctx) -> i32 {
         res
     });
     sum.merge(rnd);
+    // ---- giant programs: entity counts beyond 255 and beyond 65535 -------------------------------------
+    let giants = run_stage(ctx, "giant-programs", 6, |k| {
+        let mut m = Machine::new();
+        let (ent, n, name): (Sym, usize, &str) = match k {
+            0 => (Sym::S, 65_537, "65537 slices"),
+            1 => (Sym::L, 65_537, "65537 layers"),
+            2 => (Sym::S, 300, "300 slices, every one with a record"),
+            3 => (Sym::L, 300, "300 layers, every one with a record"),
+            4 => (Sym::L, 300, "300 layers + a cel with a record on each"),
+            _ => (Sym::L, 260, "260 layers, cels with records in 4 frames"),
+        };
+        let every = n <= 300;
+        for i in 0..n {
+            assert!(m.step_mut(ent));
+            if every || i == 0 || i == 255 || i == 256 || i == 65_535 || i == 65_536 || i + 1 == n {
+                assert!(m.step_mut(if i % 2 == 0 { Sym::U3 } else { Sym::U1 }));
+            }
+        }
+        if k >= 4 {
+            let frames = if k == 4 { 1 } else { 4 };
+            for f in 0..frames {
+                if f > 0 {
+                    assert!(m.step_mut(Sym::F));
+                }
+                for i in 0..n {
+                    assert!(m.step_mut(if f > 0 && i % 3 == 0 { Sym::K } else { Sym::C }));
+                    if i % 2 == 0 || i >= 255 {
+                        assert!(m.step_mut(Sym::U3));
+                    }
+                }
+            }
+        }
+        let (leaves, v) = m.check();
+        let mut res = CaseResult::ok(crate::rng::hash_str(name), leaves, "giant-program");
+        res.count("giant_program_chunks", m.seq.len() as u64);
+        if let Some(v) = v {
+            res.violations.push(v);
+        }
+        res.sample = Some(json!({"giant_program": name, "chunks": m.seq.len(), "records": m.attached.len()}));
+        res
+    });
+    sum.merge(giants);
     let exhaustive = sum.counters.get("exhaustive_programs").cloned().unwrap_or(0);
     finish(
         ctx,
